@@ -81,6 +81,67 @@ def enumerate_proposals(mods, exprs, muts, limit_s=5.0, max_per_node=200):
                        'global': glob, 'dt': dt, 'error': None}
 
 
+def enumerate_batch(mods, exprs, muts, limit_s=5.0, max_per_node=200):
+    """The calling convention of ddmin's TaskGenerator: a mutator's filter is
+    asked about ALL nodes first, then the accepted nodes are asked for their
+    proposals (local ones if the mutator has them, else global ones).  Yields
+    the same dicts as enumerate_proposals."""
+    nodes = mods['nodes']
+    try:
+        mods['smtlib'].collect_information(exprs)
+    except Exception:  # noqa
+        return
+    _arm_handlers()
+    allnodes = list(enumerate(nodes.bfs(exprs), 1))
+    for m in muts:
+        name = type(m).__name__
+        acc = []
+        _set_timers(limit_s * 4)
+        try:
+            for idx, node in allnodes:
+                try:
+                    if not hasattr(m, 'filter') or m.filter(node):
+                        acc.append((idx, node))
+                except Timeout:
+                    raise
+                except Exception:  # noqa
+                    continue
+        except Timeout:
+            continue
+        finally:
+            _set_timers(0)
+        for idx, node in acc:
+            t0 = time.process_time()
+            _set_timers(limit_s)
+            props, err = [], None
+            try:
+                if hasattr(m, 'mutations'):
+                    it = m.mutations(node)
+                    glob = False
+                elif hasattr(m, 'global_mutations'):
+                    it = m.global_mutations(node, exprs)
+                    glob = True
+                else:
+                    continue
+                for k, x in enumerate(it):
+                    props.append(x)
+                    if k >= max_per_node:
+                        break
+            except Timeout:
+                err = 'timeout'
+            except Exception as e:  # noqa
+                err = type(e).__name__ + ': ' + str(e)
+            finally:
+                _set_timers(0)
+            dt = time.process_time() - t0
+            if err:
+                yield {'mut': name, 'idx': idx, 'node': node, 'error': err,
+                       'dt': dt, 'simp': None, 'global': False}
+            for simp in props:
+                yield {'mut': name, 'idx': idx, 'node': node, 'simp': simp,
+                       'global': glob, 'dt': dt, 'error': None}
+
+
 def apply(mods, exprs, simp, limit_s=5.0):
     """apply_simp on a private copy of the simplification's key map (apply
     consumes identity keys).  Returns (result | None, error | None)."""
